@@ -21,7 +21,8 @@ from traits.observation.api import push_exception_handler as opush, pop_exceptio
 
 ID = "C19"
 LEVEL = "fault_enumeration"
-RULE = ("Hypothesis draws (prefix of <=4 ops, one of 22 operations, follow-up of <=5 ops); for each, every callback ordinal k "
+RULE = ("Hypothesis draws (prefix of <=4 ops, one of 34 operations incl. quiet single-attribute sets and adapt='default', "
+        "follow-up of <=5 ops + a fixed closing probe, handler logs of every later step compared); for each, every callback ordinal k "
         "of the operation x 4 exception types is injected (all enumerated); one evaluation = one injected run; non-trivial = "
         "k >= 2 or the operation has >= 2 callback sites; distinct by (case, k, exception type) digest")
 ASSUMPTIONS = ["in a Union/Either a raising alternative is, by design, a rejecting alternative: admissible states are the pre-state "
